@@ -18,22 +18,37 @@ for d in sorted(glob.glob('seeded/C*-m*')):
     if not os.path.exists(notes):
         notes = os.path.join('seeded', prop + '-m1', 'NOTES.md')
     txt = open(notes).read()
-    # section of this mutant
+    own = os.path.exists(os.path.join(d, 'NOTES.md'))
+    # the section of this mutant: files of the first rounds describe m1 and m2 in one NOTES.md
     secs = re.split(r'\n(?=## )', txt)
-    sec = next((s for s in secs if re.match(r'## *' + mut + r'\b', s)), txt if mut == 'm3' else '')
-    title = sec.split('\n', 1)[0].lstrip('# ').strip() if sec else ''
-    paras = [p.strip() for p in re.split(r'\n\s*\n', sec)]
-    idx = [i for i, p in enumerate(paras) if re.search(r'\b(needs?|needed|manifests?|trigger(s|ed)?|only (shows|when)|requires?)\b', p, re.I) and not p.startswith('```') and not p.startswith('# ') and i > 0]
-    needs_txt = title
-    if idx:
-        take = []
-        for p in paras[idx[0]:idx[0] + 4]:
-            if p.startswith('```'):
-                continue
-            take.append(p)
-            if len(' '.join(take)) > 400:
+    sec = next((s for s in secs if re.match(r'## *' + mut + r'\b', s)), None)
+    if sec is None:
+        sec = txt if own else ''
+    lines = [l for l in sec.split('\n') if l.strip()]
+    title = ''
+    for l in lines:
+        if l.startswith('#'):
+            title = l.lstrip('# ').strip()
+            break
+    if not title and lines:
+        title = lines[0].strip()
+    # "what is needed for it to manifest": the section whose heading says so, else the first paragraph that does
+    needs_txt = ''
+    hsecs = re.split(r'\n(?=#{2,3} )', sec)
+    for hs in hsecs:
+        head = hs.split('\n', 1)[0]
+        if re.search(r'need|manifest|trigger|require', head, re.I) and '\n' in hs:
+            body = re.sub(r'```.*?```', '', hs.split('\n', 1)[1], flags=re.S)
+            needs_txt = ' '.join(body.split())[:1500]
+            break
+    if not needs_txt:
+        paras = [p.strip() for p in re.split(r'\n\s*\n', re.sub(r'```.*?```', '', sec, flags=re.S))]
+        for p_ in paras:
+            if re.search(r'\b(needs?|needed|manifests?|only (shows|when)|requires?)\b', p_, re.I) and not p_.startswith('#'):
+                needs_txt = ' '.join(p_.split())[:1500]
                 break
-        needs_txt = ' '.join(' '.join(take).split())[:1500]
+    if not needs_txt:
+        needs_txt = title
     ver = open(os.path.join(d, 'verify.txt')).read() if os.path.exists(os.path.join(d, 'verify.txt')) else ''
     base = open(os.path.join(d, 'base')).read().strip() if os.path.exists(os.path.join(d, 'base')) else 'dcff49b'
     meta = {
